@@ -200,6 +200,46 @@ pub(crate) mod vk {
         keep_before + keep_after + reserve
     }
 
+    // ------------------------------------------------------------------ bit channel (C01.sym.*): the range coder by contract
+    // The arithmetic coder is replaced by a FIFO of (probability-slot tag, bit) events: the encoder side appends, the
+    // decoder side consumes and *asserts that it reads the slot the encoder wrote* (slots of both coders carry equal tags).
+    pub(crate) const CH_CAP: usize = 48;
+    pub(crate) static mut CH_TAG: [u32; CH_CAP] = [0; CH_CAP];
+    pub(crate) static mut CH_VAL: [u32; CH_CAP] = [0; CH_CAP];
+    pub(crate) static mut CH_W: usize = 0;
+    pub(crate) static mut CH_R: usize = 0;
+    pub(crate) const CH_DIRECT: u32 = 0x0100_0000;      // tag of a run of direct bits: CH_DIRECT | count
+    pub(crate) fn ch_reset() { unsafe { CH_W = 0; CH_R = 0; } }
+    pub(crate) fn ch_put(tag: u32, val: u32) {
+        unsafe { assert!(CH_W < CH_CAP, "bit channel capacity"); CH_TAG[CH_W] = tag; CH_VAL[CH_W] = val; CH_W += 1; }
+    }
+    pub(crate) fn ch_get(tag: u32) -> u32 {
+        unsafe {
+            assert!(CH_R < CH_W, "decoder reads more events than the encoder produced");
+            assert!(CH_TAG[CH_R] == tag, "decoder reads a different probability slot than the encoder wrote");
+            let v = CH_VAL[CH_R];
+            CH_R += 1;
+            v
+        }
+    }
+    pub(crate) fn ch_drained() -> bool { unsafe { CH_R == CH_W } }
+    /// a LengthCoder whose slots carry distinct tags (same layout on both sides); built at compile time (const) so that
+    /// harnesses need no unwinding budget for 514 assignments
+    pub(crate) const fn tagged_length_coder(base: u16) -> LengthCoder {
+        let mut c = LengthCoder { choice: [base, base + 1], low: [[0; LOW_SYMBOLS]; POS_STATES_MAX], mid: [[0; MID_SYMBOLS]; POS_STATES_MAX], high: [0; HIGH_SYMBOLS] };
+        let mut p = 0;
+        while p < POS_STATES_MAX {
+            let mut i = 0;
+            while i < 8 { c.low[p][i] = base + 2 + (p * 8 + i) as u16; c.mid[p][i] = base + 130 + (p * 8 + i) as u16; i += 1; }
+            p += 1;
+        }
+        let mut i = 0;
+        while i < HIGH_SYMBOLS { c.high[i] = base + 258 + i as u16; i += 1; }
+        c
+    }
+    pub(crate) const TAGGED_LEN_1000: LengthCoder = tagged_length_coder(1000);
+    pub(crate) const TAGGED_LEN_2000: LengthCoder = tagged_length_coder(2000);
+
     // ------------------------------------------------------------------ payload-layer ghost state (see kani/enc/lzma2_writer.rs)
     pub(crate) static mut PL_CUR_IN: u64 = 0;          // bytes accepted by the current payload writer
     pub(crate) static mut PL_BLOCKS: [u64; 4] = [0; 4]; // bytes accepted by each finished payload writer
